@@ -360,7 +360,7 @@ def run(ctx, only_scripts=None):
         for v in fam_e2e.judge_c11(ctx, wruns, binp):
             if v["key"].startswith("C11:e2e-"):
                 continue
-            v["key"] = v["key"].replace("C11:settings-do-not-shape-files", "C04:end-to-end-window").replace("C11:", "C04:")
+            v["key"] = v["key"].replace("C11:settings-do-not-shape-files", "C04:end-to-end-gates").replace("C11:", "C04:")
             if v["key"].startswith("C04:") and v["key"] not in seen:
                 seen.add(v["key"])
                 violations.append(v)
